@@ -43,7 +43,13 @@ func runStream(env *cliEnv, c J, emit func(J)) {
 	}
 	ins := make([]interface{}, 0, len(pre))
 	for _, s := range pre {
-		ins = append(ins, observe(s, false))
+		st, operr := observeSafe(s, false)
+		if operr != nil {
+			ev["parseerr"] = "cannot observe the input record"
+			emit(ev)
+			return
+		}
+		ins = append(ins, st)
 	}
 	ev["ins"] = ins
 	inName := "in-" + id
